@@ -8,7 +8,7 @@ import EdpVerif.Lemmas.EncErr
 import EdpVerif.Lemmas.SpecValid
 import EdpVerif.Impl.EncodeEntry
 import EdpVerif.Impl.DistHeader
-import EdpVerif.Generated.Misc
+import EdpVerif.Generated.MiscC01
 /-
 C01 — encode/decode round trip preserves the Erlang value of every term.
 Property theorems only; helper lemmas live in EdpVerif/Lemmas.
